@@ -9,9 +9,17 @@
      rejoin, publish and end of pass; when every thread has published, the minimum of the published values is a lower
      bound of every queued message and of every event in progress (gvt_safe).
    Monotonicity, "same value for all threads" and "no extraction below a value once told" are decided on the traces of
-   free-running and cooperatively scheduled runs; the node-level (MPI) reduction is modelled only through C02's runs. *)
+   free-running and cooperatively scheduled runs.
+   Node level (TW/GvtNode.v), for ANY number of ranks and EVERY interleaving of event processing, local and remote sends,
+   deliveries (arbitrary delay, arbitrary reordering) and protocol steps: two message colours, per-colour send and receive
+   counters, the reduce-scatter of the old colour's send counts, the wait for the old-colour messages, the min reduction —
+   when the min reduction completes its result is a lower bound of every queued message, of every event in progress and of
+   every message IN FLIGHT on every rank; a rank leaves the wait only when no old-colour message addressed to it is in
+   flight; the executable step function used to replay traced multi-rank runs is sound for the relation and every state of
+   a replayed run satisfies the invariant. *)
 From Coq Require Import List Arith.
 From RS Require Import TW.GvtCounters TW.GvtExec TW.GvtData.
+From RS Require TW.GvtNode.
 
 Theorem C04_counter_invariant : forall s s', GvtCounters.Inv s -> GvtCounters.step s s' -> GvtCounters.Inv s'.
 Proof. exact GvtCounters.step_inv. Qed.
@@ -41,6 +49,31 @@ Theorem C04_gvt_safe : forall s, Phi s -> (forall y, In y s -> st y = Done) ->
   (forall y t, In y s -> In t (q y) -> ole (gmin s) t) /\ (forall y c, In y s -> cur y = Some c -> ole (gmin s) c).
 Proof. exact gvt_safe. Qed.
 
+Theorem C04_node_invariant_all_interleavings : forall s s', GvtNode.Inv s -> GvtNode.step s s' -> GvtNode.Inv s'.
+Proof. exact GvtNode.step_inv. Qed.
+
+Theorem C04_node_gvt_is_below_everything_queued_in_progress_and_in_flight : forall w queues s,
+  GvtNode.reach (GvtNode.init w queues) s -> (forall y, In y (GvtNode.rks s) -> GvtNode.stg y = GvtNode.Published) ->
+  (forall y t, In y (GvtNode.rks s) -> In t (GvtNode.q y) -> ole (GvtNode.gvt_of s) t) /\
+  (forall y c, In y (GvtNode.rks s) -> GvtNode.cur y = Some c -> ole (GvtNode.gvt_of s) c) /\
+  (forall m, In m (GvtNode.net s) -> ole (GvtNode.gvt_of s) (GvtNode.mts m)).
+Proof. exact GvtNode.gvt_node_safe. Qed.
+
+Theorem C04_node_old_colour_received_before_publishing : forall s d y, GvtNode.Inv s -> nth_error (GvtNode.rks s) d = Some y -> 5 <= GvtNode.sn (GvtNode.stg y) ->
+  forall m, In m (GvtNode.net s) -> GvtNode.mdst m = d -> GvtNode.mcol m = negb (GvtNode.white s).
+Proof. exact GvtNode.white_received_before_publishing. Qed.
+
+Theorem C04_node_replay_step_sound : forall s o s', GvtNode.nexec s o = Some s' -> GvtNode.step s s'.
+Proof. exact GvtNode.nexec_sound. Qed.
+
+Theorem C04_node_replayed_runs_keep_invariant : forall w queues ops s, GvtNode.nrun (GvtNode.init w queues) ops = Some s -> GvtNode.Inv s.
+Proof. exact GvtNode.nrun_inv. Qed.
+
+Print Assumptions C04_node_invariant_all_interleavings.
+Print Assumptions C04_node_gvt_is_below_everything_queued_in_progress_and_in_flight.
+Print Assumptions C04_node_old_colour_received_before_publishing.
+Print Assumptions C04_node_replay_step_sound.
+Print Assumptions C04_node_replayed_runs_keep_invariant.
 Print Assumptions C04_counter_invariant.
 Print Assumptions C04_publish_only_when_all_joined.
 Print Assumptions C04_restart_only_when_nobody_published.
